@@ -371,3 +371,63 @@ pub fn app_extract(bytes: &[u8], handler: &mut dyn crate::master::ReadHandler) -
     crate::master::extract::extract_measurements_inner(objects, handler);
     true
 }
+
+/// every (group, variation) pair the library knows, with its `Variation` value
+pub fn all_variations() -> Vec<(u8, u8, crate::app::Variation)> {
+    let mut out = Vec::new();
+    for g in 0..=255u8 {
+        for v in 0..=255u8 {
+            if let Some(x) = crate::app::Variation::lookup(g, v) {
+                out.push((g, v, x));
+            }
+        }
+    }
+    out
+}
+
+/// the (group, variation) numbers of a `Variation`
+pub fn variation_numbers(v: crate::app::Variation) -> (u8, u8) {
+    v.to_group_and_var()
+}
+
+/// `ControlCode` of a raw octet and back
+pub fn control_code_from(x: u8) -> crate::app::control::ControlCode {
+    crate::app::control::ControlCode::from(x)
+}
+
+pub fn control_code_as_u8(x: crate::app::control::ControlCode) -> u8 {
+    x.as_u8()
+}
+
+/// application control field of a raw octet
+pub fn control_field(x: u8) -> crate::app::ControlField {
+    crate::app::ControlField {
+        fir: x & 0x80 != 0,
+        fin: x & 0x40 != 0,
+        con: x & 0x20 != 0,
+        uns: x & 0x10 != 0,
+        seq: crate::app::Sequence::new(x & 0x0F),
+    }
+}
+
+/// task errors whose payload types cannot be built outside the crate
+pub fn task_errors_with_private_payloads() -> Vec<crate::master::TaskError> {
+    vec![
+        crate::master::TaskError::Link(crate::link::error::LinkError::Stdio(std::io::ErrorKind::BrokenPipe)),
+        crate::master::TaskError::BadEncoding(crate::master::BadEncoding::Attribute(crate::app::attr::BadAttribute::BadLength(300))),
+    ]
+}
+
+/// an attribute type error (fields are crate-private)
+pub fn attr_type_error() -> crate::app::attr::TypeError {
+    crate::app::attr::TypeError::new(crate::app::attr::AttrDataType::UnsignedInt, crate::app::attr::AttrDataType::SignedInt)
+}
+
+/// an attribute variation list parsed from its encoding `[254, len, (variation, properties)*]`
+pub fn variation_list(encoded: &[u8]) -> Option<crate::app::attr::VariationList<'_>> {
+    let mut c = scursor::ReadCursor::new(encoded);
+    match crate::app::attr::AttrValue::parse(&mut c) {
+        Ok(crate::app::attr::AttrValue::AttrList(l)) => Some(l),
+        _ => None,
+    }
+}
